@@ -1225,6 +1225,10 @@ func fieldThroughStructCopy(ld *ssa.UnOp) ssa.Value {
 // nonNilAtEveryCall: fn is only ever called statically, and at each call the
 // value with access path `path` (in fn's terms) is known to be non-nil.
 func nonNilAtEveryCall(P *Program, fn *ssa.Function, path string) bool {
+	return nonNilAtEveryCallD(P, fn, path, 0)
+}
+
+func nonNilAtEveryCallD(P *Program, fn *ssa.Function, path string, depth int) bool {
 	n := 0
 	for _, g := range P.ModuleFuncs() {
 		for _, b := range g.Blocks {
@@ -1246,6 +1250,10 @@ func nonNilAtEveryCall(P *Program, fn *ssa.Function, path string) bool {
 						if cmp.Op == token.NEQ && isNilConst(cmp.Y) && accessPath(cmp.X) == tp {
 							known = true
 						}
+					}
+					if !known && depth < 3 && (g.Object() == nil || !g.Object().Exported()) {
+						// the caller is itself an unexported helper: the fact may hold at all of its call sites
+						known = nonNilAtEveryCallD(P, g, tp, depth+1)
 					}
 					if !known {
 						return false
